@@ -1,7 +1,7 @@
 (* C04 — Notify only on change or after repeat_interval; repeats arrive on time.
    Model: Model/Group.v (one aggregation group + its receiver pipeline + its notification-log entries).
    Only statements; proofs are in Proofs/GroupProofs.v. *)
-From AM Require Import Base.Prelude Model.Group Proofs.GroupProofs.
+From AM Require Import Base.Prelude Model.Group Proofs.GroupProofs Proofs.GroupLiveness.
 
 (* The dedup decision is "do not notify" exactly when none of the property's reasons holds: (no entry and
    something fires) / an alert fires that the previous notification did not list firing / nothing fires but the
@@ -108,6 +108,28 @@ Theorem c04_delivery_entry_survives_concurrent_gc ret rep now cur F R :
             nf_log ret rep now (nf_gc now cur) F R = Some e.
 Proof. exact (logged_survives_gc ret rep now cur F R). Qed.
 
+(* ---- "repeats arrive on time", composed: a DUE repeat is sent.  For ANY accepted run (no log GC / gossip merge in
+   it) from a state in which the group is idle, holds a firing unsuppressed alert x, and the armed deadline lies more
+   than repeat_interval after the instant integration i's log entry was written: once the clock has passed that
+   deadline + flush timeout, the outputs contain a successful notification of i listing x as firing — provided i
+   accepts deliveries in that window ([fair]).  Together with [c04_tick_on_time] (the deadline is one group_interval
+   after the previous flush started, and by [c04_unchanged_group_repeats_exactly_when_due] earlier deadlines do
+   not notify) this is the bound of the property: no earlier than repeat_interval, no later than repeat_interval +
+   one group_interval + delivery slack after the previous notification. ---- *)
+Theorem c04_due_repeat_is_sent cfg x i T h s s' outs g M en :
+  run cfg s h = Some (s', outs) -> fair x i T h -> no_log_ops h ->
+  s_group s = Some g -> gr_flight g = None -> has_x x T g ->
+  s_nflog s !! i = Some (Some en) -> n_ts en < gr_deadline g - g_repeat cfg ->
+  Z.max (gr_deadline g) (s_clock s) <= M -> M <= T -> (i < length (g_ints cfg))%nat -> 0 <= g_timeout cfg ->
+  M + g_timeout cfg < s_clock s' -> notified x i outs.
+Proof. exact (idle_phase_due cfg x i T h s s' outs g M en). Qed.
+
+(* the decision behind it: an entry older than repeat_interval (measured at the tick) never yields "do not notify"
+   while something fires *)
+Theorem c04_due_entry_never_silences en F R sr rep now :
+  F <> [] -> n_ts en < now - rep -> needs_update (Some en) F R sr rep now <> RNo.
+Proof. exact (needs_update_due en F R sr rep now). Qed.
+
 (* ---- non-vacuity: a concrete accepted run with a first notification, a suppressed repeat and a due repeat ---- *)
 Definition ex_cfg := mkG 30 300 1000 310 100000 [mkI true].
 Definition ex_run : list (Z * ev) :=
@@ -125,6 +147,23 @@ Example c04_nonvacuous :
   | None => False
   end.
 Proof. vm_compute. reflexivity. Qed.
+
+(* non-vacuity of [c04_due_repeat_is_sent]: after the first notification at 31 the deadline 1230 is due (1230 - 1000 > 31) *)
+Example c04_due_repeat_nonvacuous :
+  let pre := firstn 14 ex_run in let post := skipn 14 ex_run ++ [(1530, ETick 1530 []); (1530, EDedup 0); (1530, EFlushEnd); (1600, EEnd)] in
+  exists s outs0 s' outs en g,
+    run ex_cfg (init ex_cfg 0) pre = Some (s, outs0) /\ run ex_cfg s post = Some (s', outs) /\
+    s_group s = Some g /\ gr_flight g = None /\ gr_deadline g = 1230 /\
+    s_nflog s !! 0%nat = Some (Some en) /\ n_ts en < gr_deadline g - g_repeat ex_cfg /\
+    1230 + g_timeout ex_cfg < s_clock s' /\ notified 1 0%nat outs.
+Proof.
+  cbv zeta. do 6 eexists.
+  split; [vm_compute; reflexivity|]. split; [vm_compute; reflexivity|].
+  split; [vm_compute; reflexivity|]. split; [reflexivity|]. split; [reflexivity|].
+  split; [vm_compute; reflexivity|]. split; [vm_compute; reflexivity|]. split; [vm_compute; reflexivity|].
+  exists RRepeat, [mkF 1 false 0], (mkF 1 false 0). vm_compute. auto.
+Qed.
+
 
 (* ---- instance level (Model/Instance.v: routing + grouping + one group machine per aggregation group on one clock):
    every notification any group of the instance ever sends carries one of the property's reasons, lists no resolved
@@ -147,3 +186,5 @@ Print Assumptions c04_log_entry_is_the_delivery_history.
 Print Assumptions c04_gc_and_delivery_log_commute.
 Print Assumptions c04_delivery_entry_survives_concurrent_gc.
 Print Assumptions c04_instance_every_notification_justified.
+Print Assumptions c04_due_repeat_is_sent.
+Print Assumptions c04_due_entry_never_silences.
